@@ -17,5 +17,6 @@ def check(ctx):
     # (C06.e: offsets count from the start of the caller's input: the iterator is created over that very string)
     from . import pC06
     pC06.fresh_iterator_rules(ctx)
+    pC06.mode_forward_rules(ctx)    # (C06.g: only set_offset / with_offset reposition: the mode operations of the wrappers do not touch the cursor)
     from .common import cache_foundation
     cache_foundation(ctx)
